@@ -263,6 +263,23 @@ Theorem C17_reuse_vars :
 Proof. split; [exact reused_params|reflexivity]. Qed.
 Print Assumptions C17_reuse_vars.
 
+(* ... and in Spec terms: the property predicate for a request whose RouteParams
+   object was used before ([reuse_class]: the handler that ran decides whether a
+   route was selected; Vars cut down to the variable names of that pattern; then
+   [dispatch_class] for the path the message has now) holds on the model's
+   output for every reachable router, every middleware list, every iteration
+   order, every request and every content of the object handed in (a Go map: no
+   key twice).  Handler identities are those of the harness: the default handler
+   is not also the handler of a route. *)
+Theorem C17_reuse_spec : forall st mws order segs p0, wf st -> Permutation order (routes_of st) ->
+  NoDup (map fst (rp_map p0)) ->
+  (forall r d, In r (routes_of st) -> st_default st = Some d -> r_h r <> d) ->
+  let path := filter_path (path_of segs) in
+  let out := serve_into st mws order segs p0 in
+  reuse_class (sregs_of st) (st_default st) mws path (fst out) (rp_obs (snd out)) = 0%N.
+Proof. exact reuse_spec. Qed.
+Print Assumptions C17_reuse_spec.
+
 (* non-vacuity: "/a/{id}" (1), "/b/{id}" (2), default 1000; ONE RouteParams through
    the requests /a/1, /b/2, /zzz: handlers 1, 2, 1000, the object holds (/a/1,
    /a/{id}, id=1), then (/b/2, /b/{id}, id=2), then is left alone; the predicate
